@@ -133,7 +133,7 @@ def profile_cases(draw):
         h = np.round(h).astype(draw(st.sampled_from(["int64", "int32"])))
         v = np.maximum(np.round(v), 1).astype(h.dtype)
     return {"cn2": cn2, "h": h, "v": v, "axis": axis, "use_default_axis": draw(st.booleans()) if axis in (-1, rank - 1) else False,
-            "lam": draw(st.one_of(st.none(), gen.logfloat(0.3e-6, 25e-6)))}
+            "lam": draw(st.one_of(st.none(), gen.logfloat(0.3e-6, 25e-6))), "masked_seed": draw(st.one_of(st.none(), st.none(), st.integers(0, 2**31)))}
 
 
 @st.composite
@@ -217,6 +217,24 @@ def profile_body(ctx, case):
     ctx.equal(cn2, c0, "profile integral modified cn2")
     ctx.equal(h, h0, "profile integral modified h")
     ctx.equal(v, v0, "profile integral modified v")
+    if case.get("masked_seed") is not None and cn2.shape[axis] >= 2:
+        # measured profiles with missing layers, in NumPy's container for that (numpy.ma): a masked layer is no layer,
+        # whatever flag value sits under the mask
+        rng = gen.np_rng(case["masked_seed"])
+        cmv = np.moveaxis(cn2, axis, -1)
+        bad = rng.random(cmv.shape) < 0.4
+        bad[..., 0] = False                                  # at least one valid layer per profile
+        bad = np.moveaxis(bad, -1, axis)
+        flag = np.where(bad, -999.0, cn2)
+        ctx.classes["masked_profiles"] += 1
+        for name, second in (("coherenceTime", v), ("isoplanaticAngle", h), ("rytov_variance", h)):
+            f = getattr(ac, name)
+            got = np.ma.filled(np.ma.asarray(f(np.ma.array(flag, mask=bad), np.ma.array(second, mask=bad), **kwa)), np.nan)
+            cm = np.moveaxis(cn2, axis, -1).reshape(-1, cn2.shape[axis])
+            sm = np.moveaxis(second, axis, -1).reshape(-1, cn2.shape[axis])
+            bm = np.moveaxis(bad, axis, -1).reshape(-1, cn2.shape[axis])
+            per = np.array([f(cm[i][~bm[i]], sm[i][~bm[i]], **kw) for i in range(cm.shape[0])])
+            ctx.close(np.asarray(got, dtype=float).reshape(-1), per, 1e-12, "%s of masked profiles (numpy.ma) == %s of the valid layers of each profile" % (name, name), name=name + " masked profiles")
 
 
 @st.composite
@@ -285,6 +303,18 @@ def photo_body(ctx, case):
     ctx.close(astro.photons_per_mag(mag, big, pxl, case["wb"], t), k * q, 1e-12, "photons_per_mag proportional to area", scale=k * q)
     ctx.close(astro.photons_per_mag(mag, mask, pxl, case["wb"], t) / astro.photons_per_mag(mag + 5, mask, pxl, case["wb"], t), 100.0, 1e-11, "photons_per_mag: five magnitudes = factor 100", scale=100.0)
     ctx.equal(mask, m0, "photon functions modified the mask")
+    # the same pupil array edited in place between two calls (a spider or central obscuration drawn into it): the second
+    # call sees the pupil as it is now
+    m2 = mask.copy()
+    astro.photons_per_band(mag, m2, pxl, t, **kw), astro.photons_per_mag(mag, m2, pxl, case["wb"], t)
+    if m2.flat[0]:
+        m2[m2 != 0] = 0
+        m2.flat[-1] = 1
+    else:
+        m2.flat[0] = 1
+    if float(m2.sum()) != float(mask.sum()):
+        ctx.close(astro.photons_per_band(mag, m2, pxl, t, **kw), f * t * float(m2.sum()) * pxl ** 2, 1e-12, "photons_per_band after the same mask array was edited in place == flux * t * area of the edited mask", scale=f * t * area)
+        ctx.close(astro.photons_per_mag(mag, m2, pxl, case["wb"], t) * float(mask.sum()), q * float(m2.sum()), 1e-12, "photons_per_mag after the same mask array was edited in place is proportional to the edited area", scale=q * float(mask.sum()))
     ctx.equal(aotools.magnitude_to_flux(mag, **kw), f, "aotools.magnitude_to_flux vs module")
 
 
